@@ -16,7 +16,8 @@ RULE = ("random runs over tolerances (6 decades), budgets, rhoend 1e-8..1e-2, re
         "the recorded samples; 'rho has reached rhoend' => last controller's rho == rhoend*scale^restarts exactly (recomputed with the "
         "same arithmetic); max-evals flag => nf == maxfun == #calls; 'unsuccessful restarts' => runs >= max_unsuccessful_restarts; "
         "nruns == 1 + hard restarts + completed soft restarts (counted by wrappers); success => finite obj. Non-trivial/distinct = "
-        "(exit record site, flag, message) x restart mode x configuration hash")
+        "(exit record site, flag, message) x restart mode x configuration hash"
+        ' Second session: a quarter of the enum/rand runs un-logged; regularised problems whose threshold lies between sum(r^2) and sum(r^2)+h; batch initialisation with a re-used result buffer.')
 ASSUMPTIONS = ["restarts are counted by harness wrappers around solve_main and Controller.soft_restart (a soft restart is 'performed' when "
                "soft_restart returns None)",
                "finding D22 is keyed: success flag AND no point with a finite averaged objective anywhere in the recorded history"]
